@@ -112,8 +112,9 @@ func (Engine) Run(ctx *hk.RunCtx) error {
 	res := ctx.Res
 	res.Rule = "generated (expression, operands, op) cases over acc/exmerge/update/merge/truncate/valueat/round; distinct by canonical request JSON; non-trivial = at least one operand non-empty and the expression has state"
 	for i := 0; i < ctx.N; i++ {
-		r := hk.Derive(ctx.Seed, uint64(i))
-		if err := oneCase(ctx, r, uint64(i)); err != nil {
+		idx := uint64(ctx.From + i)
+		r := hk.Derive(ctx.Seed, idx)
+		if err := oneCase(ctx, r, idx); err != nil {
 			return err
 		}
 	}
